@@ -11,7 +11,8 @@ cd "$WT" || exit 2
 git checkout -q -- . ; git clean -fdq
 git apply "$SD/patch.diff" || { echo "patch does not apply" | tee -a "$LOG"; exit 2; }
 echo "## suite with patch" >> "$LOG"
-cargo nextest run --workspace --no-fail-fast --offline --test-threads 8 >> "$LOG.suite" 2>&1; SUITE=$?
+cargo nextest run --workspace --no-fail-fast --tool-config-file pb:/w/lib/nextest.toml --profile pb --offline --test-threads 8 >> "$LOG.suite" 2>&1; SUITE=$?
+grep -E "^\s+(FAIL|FLAKY)" "$LOG.suite" | sort -u | head -20 >> "$LOG"
 grep -E "Summary|tests run" "$LOG.suite" | tail -2 >> "$LOG"
 eval "$INSTALL"
 echo "## demo with patch (expect failure)" >> "$LOG"
